@@ -117,6 +117,12 @@ type fsig struct {
 	errName  string // name of the error result when results are named
 	named    bool
 	oracle   []param // extra parameters standing for external library results
+	// function-typed parameters are handled by SPECIALISATION: a function that has some is a template (never emitted);
+	// every call site must pass named top-level functions, and one copy per distinct argument list is translated
+	template bool
+	isFunc   []bool           // per Go parameter (receiver excluded): is it function-typed
+	fparams  []string         // names of the function-typed parameters, in order
+	bind     map[string]*fsig // in a specialised copy: function parameter -> the function it stands for
 	deps     map[string]bool
 	body     string
 }
@@ -761,8 +767,16 @@ func (f *ft) calleeOf(e ast.Expr) (*fsig, *ast.CallExpr) {
 	}
 	switch fn := c.Fun.(type) {
 	case *ast.Ident:
+		if b, ok := f.sig.bind[fn.Name]; ok { // a function parameter of a specialised copy
+			if _, isVar := f.x.info.Uses[fn].(*types.Var); isVar {
+				return b, c
+			}
+		}
 		if s, ok := f.x.funcs[fn.Name]; ok {
 			if _, isFunc := f.x.info.Uses[fn].(*types.Func); isFunc {
+				if s.template {
+					return f.specialise(s, c), c
+				}
 				return s, c
 			}
 		}
@@ -781,6 +795,51 @@ func (f *ft) calleeOf(e ast.Expr) (*fsig, *ast.CallExpr) {
 }
 
 // callTerm returns guards and the application term of a translated callee
+// specialise returns the copy of the template t for the functions passed at call site c (created on first use)
+func (f *ft) specialise(t *fsig, c *ast.CallExpr) *fsig {
+	x := f.x
+	if len(c.Args) != len(t.isFunc) {
+		x.fail(c.Pos(), "argument count in %s", x.text(c))
+	}
+	name := t.goName
+	bind := map[string]*fsig{}
+	k := 0
+	for i, a := range c.Args {
+		if !t.isFunc[i] {
+			continue
+		}
+		var target *fsig
+		if id, ok := unparen(a).(*ast.Ident); ok {
+			if b, ok := f.sig.bind[id.Name]; ok {
+				target = b
+			} else if s, ok := x.funcs[id.Name]; ok && !s.template {
+				if _, isFunc := x.info.Uses[id].(*types.Func); isFunc {
+					target = s
+				}
+			}
+		}
+		if target == nil {
+			x.fail(a.Pos(), "function argument %s (only a named top-level function can be passed; the callee is specialised for it)", x.text(a))
+		}
+		bind[t.fparams[k]] = target
+		name += "_" + target.leanName
+		k++
+	}
+	if s, ok := x.funcs[name]; ok {
+		return s
+	}
+	cp := *t
+	cp.goName, cp.leanName = name, name
+	cp.template = false
+	cp.bind = bind
+	cp.deps = map[string]bool{}
+	cp.oracle = nil
+	cp.body = ""
+	x.funcs[name] = &cp
+	x.order = append(x.order, name)
+	return &cp
+}
+
 func (f *ft) callTerm(callee *fsig, c *ast.CallExpr, en *env) ([]string, string) {
 	x := f.x
 	if len(callee.oracle) > 0 {
@@ -790,7 +849,12 @@ func (f *ft) callTerm(callee *fsig, c *ast.CallExpr, en *env) ([]string, string)
 	if sel, ok := c.Fun.(*ast.SelectorExpr); ok {
 		args = append(args, sel.X)
 	}
-	args = append(args, c.Args...)
+	for i, a := range c.Args {
+		if i < len(callee.isFunc) && callee.isFunc[i] && callee.bind != nil {
+			continue // a function argument: the callee is the copy specialised for it
+		}
+		args = append(args, a)
+	}
 	if len(args) != len(callee.params) {
 		x.fail(c.Pos(), "argument count in %s", x.text(c))
 	}
@@ -820,8 +884,28 @@ func (f *ft) stmts(list []ast.Stmt, en *env, ind int) string {
 	case *ast.ReturnStmt:
 		return f.ret(v, en, ind)
 	case *ast.IfStmt:
-		if v.Init != nil {
-			x.fail(v.Pos(), "if statement with an init clause")
+		if v.Init != nil { // `if init; cond {..}`: init first; what it declares must not hide an outer variable
+			if _, isAssign := v.Init.(*ast.AssignStmt); !isAssign {
+				x.fail(v.Pos(), "if statement with an init clause that is not an assignment")
+			}
+			f.noShadow([]ast.Stmt{v.Init}, en)
+			if a := v.Init.(*ast.AssignStmt); a.Tok == token.DEFINE {
+				for _, l := range a.Lhs { // the new names go out of scope after the if: they must not be used later
+					if id, ok := l.(*ast.Ident); ok && id.Name != "_" {
+						for _, st := range rest {
+							ast.Inspect(st, func(n ast.Node) bool {
+								if u, ok := n.(*ast.Ident); ok && u.Name == id.Name {
+									x.fail(v.Pos(), "name %s declared in an if-init clause is used again after the if statement", id.Name)
+								}
+								return true
+							})
+						}
+					}
+				}
+			}
+			cp := *v
+			cp.Init = nil
+			return f.stmts(append([]ast.Stmt{v.Init, &cp}, rest...), en, ind)
 		}
 		var elseB []ast.Stmt
 		switch e := v.Else.(type) {
@@ -1237,14 +1321,25 @@ func (x *xl) signature(d *ast.FuncDecl) *fsig {
 			return
 		}
 		for _, fld := range fl.List {
+			if len(fld.Names) == 0 {
+				x.fail(fld.Pos(), "unnamed parameter")
+			}
+			if _, isFn := fld.Type.(*ast.FuncType); isFn && fl == d.Type.Params {
+				for _, nm := range fld.Names {
+					s.template = true
+					s.isFunc = append(s.isFunc, true)
+					s.fparams = append(s.fparams, nm.Name)
+				}
+				continue
+			}
 			k, lt := x.typeExpr(fld.Type)
 			if k == kErr || k == kBool {
 				x.fail(fld.Pos(), "parameter of type %s", k)
 			}
-			if len(fld.Names) == 0 {
-				x.fail(fld.Pos(), "unnamed parameter")
-			}
 			for _, nm := range fld.Names {
+				if fl == d.Type.Params {
+					s.isFunc = append(s.isFunc, false)
+				}
 				*dst = append(*dst, param{name: nm.Name, k: k, leanType: lt})
 			}
 		}
@@ -1576,7 +1671,11 @@ func translateSource(path, codecPath string) (text string, nfuncs, nerrs int, er
 	// every function is translated on its own: one that is outside the subset is recorded in `untranslated` (and
 	// reported on stderr as WARNING) instead of aborting the file, so the other definitions, the model driver and
 	// the fallback comparison against the hand-written specification remain available
-	for _, n := range x.order {
+	for i := 0; i < len(x.order); i++ { // specialised copies are appended to x.order while translating
+		n := x.order[i]
+		if x.funcs[n].template {
+			continue
+		}
 		func() {
 			defer func() {
 				if r := recover(); r != nil {
@@ -1589,6 +1688,15 @@ func translateSource(path, codecPath string) (text string, nfuncs, nerrs int, er
 			}()
 			x.translate(x.funcs[n])
 		}()
+	}
+	{ // templates are never emitted themselves
+		var keep []string
+		for _, n := range x.order {
+			if !x.funcs[n].template {
+				keep = append(keep, n)
+			}
+		}
+		x.order = keep
 	}
 	for changed := true; changed; { // a caller of an untranslated function is untranslated as well
 		changed = false
